@@ -97,7 +97,41 @@ def kw(opts):
     return o
 
 
+def register_late(case):
+    """A custom type that is looked up BEFORE it is registered: the same data is first parsed while the type is
+    unknown (leniently and strictly, through parse and -- observables -- parse_observable), then the type is
+    registered, and only then is the case's object made.  Registration is "on request" at any time: what the
+    library answered while the type was unknown must not stick."""
+    late = case["late"]
+    cid = case["cid"]
+    if cid in CUSTOM:
+        return
+    P = stix2.properties
+    probe = dict(case["data"], type=late["type"])
+    for allow in (True, False):
+        try:
+            stix2.parse(dict(probe), allow_custom=allow)
+        except Exception:  # noqa: BLE001
+            pass
+        if late["kind"] == "obs":
+            try:
+                stix2.parse_observable(dict(probe), allow_custom=allow, version=late["ver"])
+            except Exception:  # noqa: BLE001
+                pass
+    mod = stix2.v20 if late["ver"] == "2.0" else stix2.v21
+    holder = type("C01Late", (object,), {})
+    if late["kind"] == "obj":
+        CUSTOM[cid] = mod.CustomObject(late["type"], [("x_foo", P.StringProperty()), ("x_num", P.IntegerProperty())])(holder)
+    elif late["ver"] == "2.1":
+        CUSTOM[cid] = mod.CustomObservable(late["type"], [("value", P.StringProperty(required=True)), ("x_more", P.IntegerProperty())],
+                                           ["value"])(holder)
+    else:
+        CUSTOM[cid] = mod.CustomObservable(late["type"], [("value", P.StringProperty(required=True)), ("x_more", P.IntegerProperty())])(holder)
+
+
 def make(case):
+    if case.get("late"):
+        register_late(case)
     if case["route"] == "parse":
         return stix2.parse(case["data"], allow_custom=case.get("allow", False))
     cls = find_class(case["cid"])
@@ -129,7 +163,37 @@ def derive(obj, how, allow):
         return cls(allow_custom=allow or obj.has_custom, **kwargs)
     if how == "new-version":
         return obj.new_version()
+    if how.startswith("zone:"):
+        # the same instants given as timezone-aware datetimes of another zone, at every depth
+        return rezone(obj, zone_of(how[5:]), allow)
     raise ValueError(how)
+
+
+def zone_of(name):
+    import datetime as dt
+    if name.startswith("+") or name.startswith("-"):
+        sign = 1 if name[0] == "+" else -1
+        hh, mm = name[1:].split(":")
+        return dt.timezone(sign * dt.timedelta(hours=int(hh), minutes=int(mm)))
+    import pytz
+    return pytz.timezone(name)
+
+
+def rezone(v, tz, allow):
+    import datetime as dt
+    if isinstance(v, dt.datetime):
+        aware = v if v.tzinfo is not None else v.replace(tzinfo=dt.timezone.utc)
+        moved = aware.astimezone(tz)
+        # a plain aware datetime of that zone: the property applies its own precision again
+        return dt.datetime(moved.year, moved.month, moved.day, moved.hour, moved.minute, moved.second, moved.microsecond,
+                           tzinfo=moved.tzinfo, fold=moved.fold)
+    if isinstance(v, _STIXBase):
+        return type(v)(allow_custom=allow or v.has_custom, **{k: rezone(x, tz, allow) for k, x in v.items()})
+    if isinstance(v, dict):
+        return {k: rezone(x, tz, allow) for k, x in v.items()}
+    if isinstance(v, (list, tuple)):
+        return [rezone(x, tz, allow) for x in v]
+    return v
 
 
 def pairs_top(text):
